@@ -4,7 +4,7 @@ From PDV Require Import lib.Skel gen.Gen_C05.
 
 (* Global GenerateTSO: Check; without dc-locations plain getTS; otherwise under syncMu: estimate, SyncMaxTS(check), fall back to a larger collected maximum (+count, overflow bump) and SyncMaxTS(skipCheck), persist when memory is behind, Check, differentiate *)
 Lemma skel_gta_GenerateTSO_ok : skel_gta_GenerateTSO =
-  [Call "Check"; IfE "!gta.leadership.Check()" [Ret] []; Call "GetClusterDCLocations"; IfE "len(dcLocationMap) == 0" [Call "getTS"; Ret] []; Lock "gta.syncMu"; DeferUnlock "gta.syncMu"; ForE [Call "estimateMaxTS"; Assign "estimatedMaxTSO" "= gta.estimateMaxTS(count, suffixBits)"; IfE "err != nil" [Cont] []; IfE "shouldRetry" [Cont] []; Call "SyncMaxTS"; IfE "err != nil" [Cont] []; Call "CompareTimestamp"; IfE "!skipCheck && tsoutil.CompareTimestamp(&globalTSOResp, estimatedMaxTSO) > 0" [Assign "estimatedMaxTSO.Logical" "+= int64(count)"; Call "precheckLogical"; IfE "!gta.precheckLogical(estimatedMaxTSO, suffixBits)" [Assign "estimatedMaxTSO.Physical" "+= UpdateTimestampGuard.Milliseconds()"; Assign "estimatedMaxTSO.Logical" "= int64(count)"] []; Assign "skipCheck" "= true"] []; Call "CompareTimestamp"; Call "getCurrentTSO"; IfE "err != nil" [Cont] []; Call "CompareTimestamp"; IfE "tsoutil.CompareTimestamp(currentGlobalTSO, &globalTSOResp) < 0" [Call "resetUserTimestamp"; IfE "err != nil" [Cont] []] []; Call "Check"; IfE "!gta.leadership.Check()" [Ret] []; Call "differentiateLogical"; Assign "globalTSOResp.Logical" "= gta.timestampOracle.differentiateLogical(globalTSOResp.GetLogical(), suffixBits)"; Ret]; Ret].
+  [Call "Check"; IfE "!gta.leadership.Check()" [Ret] []; Call "GetClusterDCLocations"; Assign "dcLocationMap" ":= gta.allocatorManager.GetClusterDCLocations()"; IfE "len(dcLocationMap) == 0" [Call "getTS"; Ret] []; Lock "gta.syncMu"; DeferUnlock "gta.syncMu"; Call "GetClusterDCLocations"; Assign "dcLocationMap" "= gta.allocatorManager.GetClusterDCLocations()"; ForE [Call "estimateMaxTS"; Assign "estimatedMaxTSO" "= gta.estimateMaxTS(count, suffixBits)"; IfE "err != nil" [Cont] []; IfE "shouldRetry" [Cont] []; Call "SyncMaxTS"; IfE "err != nil" [Cont] []; Call "CompareTimestamp"; IfE "!skipCheck && tsoutil.CompareTimestamp(&globalTSOResp, estimatedMaxTSO) > 0" [Assign "estimatedMaxTSO.Logical" "+= int64(count)"; Call "precheckLogical"; IfE "!gta.precheckLogical(estimatedMaxTSO, suffixBits)" [Assign "estimatedMaxTSO.Physical" "+= UpdateTimestampGuard.Milliseconds()"; Assign "estimatedMaxTSO.Logical" "= int64(count)"] []; Assign "skipCheck" "= true"] []; Call "CompareTimestamp"; Call "getCurrentTSO"; IfE "err != nil" [Cont] []; Call "CompareTimestamp"; IfE "tsoutil.CompareTimestamp(currentGlobalTSO, &globalTSOResp) < 0" [Call "resetUserTimestamp"; IfE "err != nil" [Cont] []] []; Call "Check"; IfE "!gta.leadership.Check()" [Ret] []; Call "differentiateLogical"; Assign "globalTSOResp.Logical" "= gta.timestampOracle.differentiateLogical(globalTSOResp.GetLogical(), suffixBits)"; Ret]; Ret].
 Proof. reflexivity. Qed.
 
 Lemma skel_gta_estimateMaxTS_ok : skel_gta_estimateMaxTS =
@@ -58,7 +58,7 @@ Proof. split; reflexivity. Qed.
 
 (* ---- joins, moves, suffix width (model/C05_Join.v): the functions the labels JCheckLeader / JCheckFollower / JStart stand for ---- *)
 Lemma skel_am_GetMaxLocalTSO_ok : skel_am_GetMaxLocalTSO =
-  [Call "GetClusterDCLocations"; ForE [Call "getAllocatorGroup"; IfE "!ok" [Call "delete"; Cont] []; Call "GetAllocatorLeader"; IfE "!isLocal || localAllocator.GetAllocatorLeader().GetMemberId() == 0" [Call "delete"] []]; Assign "maxTSO" ":= &pdpb.Timestamp{}"; Call "GetAllocator"; IfE "err != nil" [Ret] []; IfE "len(clusterDCLocations) > 0" [Call "SyncMaxTS"; IfE "err != nil" [Ret] []] []; Call "getCurrentTSO"; Call "CompareTimestamp"; IfE "err == nil && tsoutil.CompareTimestamp(currentGlobalTSO, maxTSO) > 0" [Assign "maxTSO" "= currentGlobalTSO"] []; Ret].
+  [Call "GetClusterDCLocations"; ForE [Call "getAllocatorGroup"; IfE "!ok" [Call "delete"; Cont] []; Call "GetAllocatorLeader"; IfE "!isLocal || localAllocator.GetAllocatorLeader().GetMemberId() == 0" [Call "delete"] []]; Assign "maxTSO" ":= &pdpb.Timestamp{}"; Call "GetAllocator"; IfE "err != nil" [Ret] []; Lock "?.syncMu"; DeferUnlock "?.syncMu"; IfE "len(clusterDCLocations) > 0" [Call "SyncMaxTS"; IfE "err != nil" [Ret] []] []; Call "getCurrentTSO"; Call "CompareTimestamp"; IfE "err == nil && tsoutil.CompareTimestamp(currentGlobalTSO, maxTSO) > 0" [Assign "maxTSO" "= currentGlobalTSO"] []; Ret].
 Proof. reflexivity. Qed.
 Lemma skel_am_campaignAllocatorLeader_ok : skel_am_campaignAllocatorLeader =
   [Call "CampaignAllocatorLeader"; IfE "err != nil" [Ret] []; Call "Initialize"; IfE "err != nil" [Ret] []; IfE "dcLocationInfo.GetMaxTs().GetPhysical() != 0" [Call "WriteTSO"; IfE "err != nil" [Ret] []] []; Call "compareAndSetMaxSuffix"; Call "EnableAllocatorLeader"; ForE [SwitchE [[IfE "!allocator.IsAllocatorLeader()" [Ret] []]; [Ret]]]].
